@@ -238,6 +238,14 @@ COMMUTE_CORPUS = [
     [[(None, False, _l("flour", ("qty", 1, "kg", "", ""))), (None, False, ("step", ("sift",), [_l("flour", ("qty", 1000, "g", "", ""))]))]],
     [[(None, False, _l("eggs", ("qty", 3, None, "", ""))), (None, False, ("step", ("beat",), [_l("eggs", ("qty", 3, None, "", ""))])),
       (None, False, ("step", ("boil",), [_l("eggs", ("qty", 3, None, "", ""))]))]],
+    # a name with a number in braces and a name with the same digits as plain text are different names at every scale, also at the scales at
+    # which they read the same ({1} x 2 = 2, {6} x 1/2 = 3, {2} x 3 = 6)
+    [[([("tray ", 1)], False, ("step", ("bake",), [_l("dough", ("qty", 500, "g", " ", ""))])), (None, False, ("step", ("fill",), [_l("tray 2"), _l("jam")])),
+      (None, False, ("step", ("stack",), [("leaf", None, ("tray ", 1)), _l("cream")]))]],
+    [[([("tin ", 6)], False, ("step", ("line",), [_l("paper")])), ([("tin 3",)], False, ("step", ("grease",), [_l("butter")])),
+      (None, False, ("step", ("fill",), [("leaf", None, ("tin ", 6)), _l("tin 3"), _l("tin 12"), _l("tin 18")]))]],
+    [[([("batch ", 2, " of dough")], True, ("step", ("knead",), [_l("flour", ("qty", 2, "kg", " ", ""))])),
+      (None, False, ("step", ("shape",), [("leaf", ("prop", Fraction(1, 2), " of the"), ("batch ", 2, " of dough")), _l("batch 4 of dough"), _l("batch 6 of dough"), _l("batch 1 of dough")]))]],
 ]
 
 
@@ -278,14 +286,27 @@ def check_markdown(rng):
     import shutil
     out = []
     n = rng.choice([1, 2, 3, 4, 6])
-    a, b, c, q = rng.choice([2, 3, 5, 12]), rng.choice([Fraction(1, 2), 4, Fraction(3, 4), Fraction(11, 2), Fraction(15, 4), Fraction(25, 12)]), rng.choice([1, 2, 10]), rng.choice([100, 250, 75])
+    # now and then a whole number too large for a float to hold (it must still be multiplied and shown exactly)
+    a, b, c, q = rng.choice([2, 3, 5, 12, 9007199254740993, 10 ** 17 + 1]), rng.choice([Fraction(1, 2), 4, Fraction(3, 4), Fraction(11, 2), Fraction(15, 4), Fraction(25, 12)]), rng.choice([1, 2, 10]), rng.choice([100, 250, 75])
     fmt = lambda x: ("%d/%d" % (x.numerator, x.denominator)) if isinstance(x, Fraction) else str(x)  # noqa
     doc = MD_DOC % dict(n=n, a=fmt(a), b=fmt(b), c=fmt(c), q=q)
     mr = compile_markdown(doc)
     k = rng.choice([2, 3, Fraction(1, 2), Fraction(3, 2), Fraction(4, 3), Fraction(2, 3)])
     html = mr.render(k)
-    want_prose = [format_number(n * k).replace("/", "⁄"), format_number(a * k).replace("/", "⁄"), format_number(b * k).replace("/", "⁄"),
-                  format_number(a * k).replace("/", "⁄")]
+    def shown(x):
+        # what the documentation prescribes for exact numbers, computed here and not by the code under test: whole numbers in full,
+        # the listed denominators as proper or mixed fractions; anything else (never produced by these factors for a and n) by the code
+        x = Fraction(x)
+        if x.denominator == 1:
+            return str(x.numerator)
+        if x.denominator in (2, 3, 4, 5, 6, 7, 8, 12, 16):
+            w, r = divmod(x.numerator, x.denominator)
+            return ("%d " % w if w else "") + "%d⁄%d" % (r, x.denominator)
+        return format_number(x).replace("/", "⁄")
+    want_prose = [shown(n * k), shown(a * k), shown(b * k), shown(a * k)]
+    for one in (1, Fraction(1), Fraction(2, 2)):
+        if svalues(mr.render(one), False) != [shown(n), shown(a), shown(b), shown(a)]:
+            out.append(("C03:scale-one-not-identity", "render(%r): prose shows %r, written %r" % (one, svalues(mr.render(one), False), [n, a, b, a])))
     got = svalues(html, False)
     if got != want_prose:
         out.append(("C03:markdown-prose-not-scaled", "scale %r: prose shows %r, expected %r" % (k, got, want_prose)))
